@@ -24,3 +24,44 @@ Theorem C13_consumers_read_complete_results :
     accepted_file_mode e = true -> match f_out e with Some f => complete f = true | None => False end.
 Proof. exact worker_publish_atomic. Qed.
 Print Assumptions C13_consumers_read_complete_results.
+
+(* ---- the file executor at point level (Model/FileExec.v: client, loop thread, one process per
+   started call, the cache directory; tied to the code by lockstep incl. several sessions and killed
+   processes).  Proofs/FileSafe.v.  Transitions: any step of any thread or process, or the kill
+   of a process from outside; initial directory fs0 arbitrary (whatever earlier runs left). ---- *)
+From EL Require Import Model.Exec Model.ExecInv Model.StepExec Model.FileExec Model.FileSpec Proofs.FileSafe.
+
+(* a future is only ever completed with the value of its own call *)
+Theorem C13_future_gets_its_own_value :
+  forall c n prog fs0 s t s' f v,
+    FileSafe.freach c (finit n prog fs0) s -> fstep c s t = Some (s', FL (LSetRes f v)) -> v = fcanon c f.
+Proof. exact setres_own_value. Qed.
+Print Assumptions C13_future_gets_its_own_value.
+
+(* a call's function starts only when the result file of every input (every FutureItem
+   argument) is complete; programs without cancellation, each call submitted once *)
+Theorem C13_function_starts_after_complete_inputs :
+  forall c n prog fs0 s s' k m,
+    nocancel prog = true -> wf_prog n prog -> FileSafe.freach c (finit n prog fs0) s ->
+    fstep c s (TP m) = Some (s', FL (LBody k)) ->
+    forall w, In w (qwaits (fgetp s m)) -> exists l, fs_get (fsy s) (w, EOut) = Some l /\ has_ds DOut l = true.
+Proof. exact body_after_inputs. Qed.
+Print Assumptions C13_function_starts_after_complete_inputs.
+
+(* whatever files an earlier run left behind: at most one process per key, registered with a
+   future that is not done and without a result file yet; the key being prepared has no process,
+   no result file and no memory_dict entry; and the loop thread never dies *)
+Theorem C13_loop_invariant :
+  forall c n prog fs0 s,
+    nocancel prog = true -> wf_prog n prog -> FileSafe.freach c (finit n prog fs0) s ->
+    procs_ok s = true /\ prep_ok s = true /\ loop_alive s = true.
+Proof. exact file_inv. Qed.
+Print Assumptions C13_loop_invariant.
+
+(* a call that is already in the cache directory is registered for collection, no process is started *)
+Theorem C13_cached_call_not_started :
+  forall c s s' i k w,
+    fpc s = GListdir i k w -> fs_has (fsy s) (k, EOut) = true -> fstep c s TD = Some (s', LListdir) ->
+    fpc s' = GTd /\ fps s' = fps s /\ fsy s' = fsy s /\ assoc_key (mem s') k = Some i.
+Proof. exact no_rerun. Qed.
+Print Assumptions C13_cached_call_not_started.
